@@ -57,29 +57,31 @@ func MulDivIdentity() {
 	vp.Reach("end")
 }
 
+// Monotonicity. The property states "a larger ratio never darkens a channel" as a consequence of
+// the exact formula (each channel is min(floor(ch*mul/div), 31)). It is decided that way: job
+// c17/muldiv proves, on the real MulDiv, that every channel equals the formula for every colour,
+// multiplicand and divisor; the two jobs below prove that the formula is monotone in the
+// multiplicand and antitone in the divisor. Asking the solver for monotonicity of the
+// implementation directly worked on the current source but not on three behaviour-preserving
+// rewrites of MulDiv (helper with early return, 32-bit field arithmetic, unpacked struct): the
+// verdict depended on how the arithmetic happens to be written. A wrong MulDiv is reported by
+// c17/muldiv.
+
 // MulDivMonotoneMul: with the divisor fixed, a larger multiplicand never darkens a channel.
 func MulDivMonotoneMul() {
-	c := color15.Color(vp.U16("c"))
+	ch := vp.U8("ch")
 	m1, m2, d := vp.U8("m1"), vp.U8("m2"), vp.U8("d")
-	vp.Assume(d != 0 && m1 >= m2)
-	r1, g1, b1 := c.MulDiv(m1, d).ToRGB()
-	r2, g2, b2 := c.MulDiv(m2, d).ToRGB()
-	vp.Assert("larger-multiplicand-never-darkens-red", r1 >= r2)
-	vp.Assert("larger-multiplicand-never-darkens-green", g1 >= g2)
-	vp.Assert("larger-multiplicand-never-darkens-blue", b1 >= b2)
+	vp.Assume(ch < 32 && d != 0 && m1 >= m2)
+	vp.Assert("larger-multiplicand-never-darkens-a-channel", scale(ch, m1, d) >= scale(ch, m2, d))
 	vp.Reach("end")
 }
 
 // MulDivMonotoneDiv: with the multiplicand fixed, a smaller divisor never darkens a channel.
 func MulDivMonotoneDiv() {
-	c := color15.Color(vp.U16("c"))
+	ch := vp.U8("ch")
 	m, d1, d2 := vp.U8("m"), vp.U8("d1"), vp.U8("d2")
-	vp.Assume(d1 != 0 && d2 != 0 && d1 <= d2)
-	r1, g1, b1 := c.MulDiv(m, d1).ToRGB()
-	r2, g2, b2 := c.MulDiv(m, d2).ToRGB()
-	vp.Assert("smaller-divisor-never-darkens-red", r1 >= r2)
-	vp.Assert("smaller-divisor-never-darkens-green", g1 >= g2)
-	vp.Assert("smaller-divisor-never-darkens-blue", b1 >= b2)
+	vp.Assume(ch < 32 && d1 != 0 && d2 != 0 && d1 <= d2)
+	vp.Assert("smaller-divisor-never-darkens-a-channel", scale(ch, m, d1) >= scale(ch, m, d2))
 	vp.Reach("end")
 }
 
